@@ -1,1 +1,4 @@
 import OFModel.Allow
+import OFModel.Gen.Facts
+import OFModel.Zmq.Receiver
+import OFModel.Zmq.Sender
